@@ -73,12 +73,18 @@ def generate():
     ta = re.search(r"pub fn all\(\) -> Vec<TypedArrayKind> \{\s*vec!\[(.*?)\]", r, re.S)
     kinds = re.findall(r"TypedArrayKind::(\w+)", ta.group(1)) if ta else []
     out.append("Definition typed_array_kinds_source : list string := [%s]." % "; ".join(coq_str(k) for k in kinds))
-    # ---- subtyping: SubTypeTag codes
-    try:
-        s = read("packages/beff-core/src/subtyping/subtype.rs") + read("packages/beff-core/src/subtyping/semtype.rs")
-        codes = re.findall(r"SubTypeTag::(\w+) => (?:0x)?([0-9a-fA-Fx<\s]+?),", s)
-    except OSError:
-        codes = []
+    # ---- subtyping: SubTypeTag codes and the order of SubTypeTag::all()
+    st = read("packages/beff-core/src/subtyping/subtype.rs")
+    m = re.search(r"pub enum SubTypeTag \{(.*?)\}", st, re.S)
+    codes = re.findall(r"(\w+) = 1 << (\d+),", m.group(1)) if m else []
+    out.append("Definition subtype_tag_shifts_source : list (string * N) := [%s]." %
+               "; ".join("(%s, %s)" % (coq_str(a), b) for a, b in codes))
+    m = re.search(r"pub fn all\(\) -> Vec<SubTypeTag> \{.*?vec!\[(.*?)\]", st, re.S)
+    order = re.findall(r"SubTypeTag::(\w+)", m.group(1)) if m else []
+    out.append("Definition subtype_tag_all_source : list string := [%s]." % "; ".join(coq_str(a) for a in order))
+    m = re.search(r"pub const VAL: u32 = (.*?);", st, re.S)
+    val = sum(1 << int(x) for x in re.findall(r"1 << (\d+)", m.group(1))) if m else 0
+    out.append("Definition val_mask_source : N := %d." % val)
     return "\n".join(out) + "\n"
 
 
